@@ -24,6 +24,7 @@ RULE = ("each case = one 30 s closed-loop trajectory: plant = the shipped quadro
         "(position error < 5 cm, tilt < 0.05 rad, rates < 0.05 rad/s); non-trivial = every run; distinct = hashed initial conditions")
 ASSUMPTIONS = ["log-linear cascade: commanded heading psi_sp = 0 (the simulator's default; on the pinned tree that cascade diverges for |psi_sp| > ~1 rad, which is outside the statement: it quantifies over initial conditions, not heading commands)",
                "true state fed back (the simulator's strapdown estimator is covered by C08)",
+               "'attitude settles' from a start tilted <= 60 deg is taken to include that the tilt never exceeds 120 deg on the way (the unchanged tree stays within a few degrees of the initial tilt)",
                "the harness reproduces the wiring and gains of scripts/rdd2_sim.py; constants are read from the model's defaults at run time"]
 
 DT = 0.01
@@ -144,6 +145,7 @@ def run(ctx):
         zlow = np.full(H, np.inf)
         tail = int(round(5.0 / DT))
         perr = np.zeros(H); tiltmax = np.zeros(H); ratemax = np.zeros(H)
+        pe0 = np.linalg.norm(X[:, idx["IP"]] - target, axis=1); pemax = pe0.copy(); tilt_run = np.zeros(H)
         perr_t = {5: np.zeros(H), 10: np.zeros(H), 20: np.zeros(H)}
         for k in range(n):
             (Xn, i1, e1, de1, zi2, Fp, u, thrust, qsp, zmin), _ = ev(X, i0, e0, de0, zi, target, psi_sp)
@@ -163,6 +165,8 @@ def run(ctx):
             de0 = np.where(alive[:, None], de1[:, :, 0], de0)
             zi = np.where(alive, zi2[:, 0, 0], zi)
             pe = np.linalg.norm(X[:, idx["IP"]] - target, axis=1)
+            pemax = np.where(alive, np.maximum(pemax, pe), pemax)
+            tilt_run = np.where(alive, np.maximum(tilt_run, np.arccos(np.clip(O.quat_to_R(X[:, idx["IQ"]])[:, 2, 2], -1, 1))), tilt_run)
             for T in perr_t:
                 if k == int(T / DT):
                     perr_t[T] = pe.copy()
@@ -178,10 +182,14 @@ def run(ctx):
         ctx.check_array("stays_above_ground", mode, np.maximum(0, -zlow)[ok], 0.0, {k_: v[ok] for k_, v in inp.items()}, extra={"lowest_z": zlow[ok]})
         ctx.check_array("position_error_last_5s", mode, perr[ok], 0.05, {k_: v[ok] for k_, v in inp.items()})
         ctx.check_array("tilt_settled_last_5s", mode, tiltmax[ok], 0.05, {k_: v[ok] for k_, v in inp.items()})
+        # "attitude settles" from a start tilted <= 60 degrees includes that the vehicle never turns over on the way
+        # (unchanged tree: the tilt never grows by more than a few degrees; a sign error in the attitude feedback for
+        # one quaternion hemisphere flips the vehicle to ~170 degrees before it recovers 14 m lower)
+        ctx.check_array("never_turns_over", mode, tilt_run[ok], np.deg2rad(120.0), {k_: v[ok] for k_, v in inp.items()})
         ctx.check_array("rates_settled_last_5s", mode, ratemax[ok], 0.05, {k_: v[ok] for k_, v in inp.items()})
         ctx.distinct(X0)
         ctx.count("closed_loop_runs:" + mode, H)
         ctx.count("control_steps:" + mode, H * n)
         ctx.note("decay:" + mode, {"max_pos_err_at_5s": float(perr_t[5].max()), "at_10s": float(perr_t[10].max()), "at_20s": float(perr_t[20].max()),
-                                   "last_5s": float(perr.max()), "lowest_z": float(zlow.min()), "max_motor_force": float(fmax.max())})
+                                   "last_5s": float(perr.max()), "max_excursion_growth": float((pemax - pe0).max()), "max_tilt_growth_deg": float(np.rad2deg(tilt_run - tilt).max()), "max_tilt_deg": float(np.rad2deg(tilt_run.max())), "lowest_z": float(zlow.min()), "max_motor_force": float(fmax.max())})
         ctx.sample({"mode": mode, "x0": X0[0], "pos_err_5_10_20_end": [float(perr_t[5][0]), float(perr_t[10][0]), float(perr_t[20][0]), float(perr[0])]})
